@@ -65,7 +65,7 @@ func (r *sioTimerRun) log(ev map[string]interface{}) {
 
 func (r *sioTimerRun) boot(state *core.State) error {
 	ctx, cancel := context.WithCancel(context.Background())
-	cpl := &nullCouplings{in: make(chan interface{}, 256), out: make(chan *sio.Result, 256)}
+	cpl := &nullCouplings{in: make(chan interface{}), out: make(chan *sio.Result, 256)} // in: unbuffered, as the stdio coupling makes it
 	cr, err := sio.NewCrew(ctx, &sio.CrewConf{Id: "verif", Ctl: &core.Control{Limit: 50}}, cpl)
 	if err != nil {
 		cancel()
@@ -111,6 +111,9 @@ func (r *sioTimerRun) step(st gen.TimerStep, who string) {
 		r.log(map[string]interface{}{"ev": "rem", "id": st.Id, "res": res, "who": who})
 	case "sleep":
 		r.wait(time.Duration(st.Ms) * time.Millisecond)
+	case "busy":
+		// the loop is occupied with something else: nothing reads the crew's input meanwhile
+		time.Sleep(time.Duration(st.Ms) * time.Millisecond)
 	case "pending":
 		if os.Getenv("VERIF_NO_PENDING") != "" {
 			// race-detector run: the harness itself must not read the live timer table
@@ -185,6 +188,13 @@ func (r *sioTimerRun) fired(m interface{}) {
 	tagf, _ := mm["tag"].(float64)
 	tag := int(tagf)
 	r.log(map[string]interface{}{"ev": "fire", "tag": tag})
+	if os.Getenv("VERIF_NO_PENDING") == "" {
+		// After its send the firing goroutine still records a change in the crew's change cache,
+		// unsynchronised with the crew's own processing (known finding KF-C17-1).  Processing the
+		// fired message at once, as Crew.Loop does, regularly crashes the run on that race; outside
+		// the race-detector run the harness gives the goroutine a moment to finish.
+		time.Sleep(time.Millisecond)
+	}
 	r.cr.ProcessMsg(r.ctx, m)
 	for _, st := range r.c.OnFire[strconv.Itoa(tag)] {
 		r.step(st, "handler")
@@ -254,7 +264,16 @@ func runSioTimers(cfg Config) {
 		go func(i int) {
 			defer wg.Done()
 			defer func() { <-sem }()
-			results[i] = runOneSioTimers(cases[i])
+			// a scenario lasts well under a second; one that does not come to an end is stuck
+			// (a request or a firing blocked for good) and is reported as such
+			done := make(chan map[string]interface{}, 1)
+			go func() { done <- runOneSioTimers(cases[i]) }()
+			select {
+			case r := <-done:
+				results[i] = r
+			case <-time.After(20 * time.Second):
+				results[i] = map[string]interface{}{"hang": true, "events": []interface{}{}}
+			}
 		}(i)
 	}
 	wg.Wait()
